@@ -59,6 +59,8 @@ def seeds():
         aft = fmt(after) if not caught_first else '-'
         if m.get('status') == 'superseded':
             aft += ' (superseded by a later repo fix, see meta.json)'
+        if m.get('status') == 'outside_statement':
+            aft += ' (not a violation of the property as stated, see meta.json)'
         rows.append('| %s | %s | %s | %s | %s |' % (name, ', '.join(os.path.basename(f) for f in files), esc(what), fmt(first), aft))
     head = ['%d seeded changes are kept under `seeded/`; %d were caught by the quick tier of their own check as it stood when the '
             'change came in, %d after the check was strengthened (alphabet or oracle widened -- never special-cased to the patch), '
